@@ -194,6 +194,10 @@ def c19_run(reqs):
             e['CB_PHC'] = '1'
         if '@link' in toks:
             e['CB_LINK'] = '1'
+        if '@young' in toks: e['CB_YOUNG'] = '1'
+        if '@placeholder' in toks: e['CB_PLACEHOLDER'] = '1'
+        if '@leap3' in toks:
+            e['CB_LEAP'] = '3'; e['CB_HARNESS'] = '/verif/build/target/debug/cbharness'
         q = subprocess.run(cmd, env=e, stdin=subprocess.DEVNULL, stdout=subprocess.PIPE, stderr=subprocess.DEVNULL, text=True, timeout=60)
         return f'{r} => {q.stdout.strip() or "no-output"}'
     with concurrent.futures.ThreadPoolExecutor(max_workers=12) as ex:
@@ -514,6 +518,16 @@ _c['relevant'] = (lambda old: lambda c: old(c) or (kind(c) == 'drift' and 'linkP
 _c['project'] = (lambda old: lambda c: proj_first2(c) if kind(c) == 'drift' else old(c))(_c['project'])
 _c['rule'] = _c.get('rule', '') + " || plus three process-level runs of the release daemon whose segment path is a symbolic link (dangling, or to a live segment left by a previous instance): the daemon must publish through the link; the link must still be there and the linked file must be the one updated"
 
+# C09 at process level: restarts of the release daemon over what a previous instance left (a live record, the never-synchronised
+# placeholder), on a machine that has just booted (time namespace: CLOCK_MONOTONIC ~ 120 s), with chronyd absent or answering
+# "not synchronised": the first publication must say Unknown (verdict C09 on `drift` lines)
+_c = PROPS['C09']
+_c['gens'] = (lambda old: lambda seed, th: old(seed, th) + [lambda: c19_run(['drift 50 @prior 1000 @placeholder @young @leap3', 'drift 50 @prior 1000 @young @leap3', 'drift 50 @prior 1000 @placeholder @leap3',
+                                                                             'drift none @prior 777 @placeholder @young', 'drift 50 @leap3', 'drift 7 @young'])])(_c['gens'])
+_c['relevant'] = (lambda old: lambda c: old(c) or kind(c) == 'drift')(_c['relevant'])
+_c['project'] = (lambda old: lambda c: proj_first2(c) if kind(c) == 'drift' else old(c))(_c['project'])
+_c['rule'] = _c.get('rule', '') + " || plus six process-level runs of the release daemon restarting over a previous instance's segment (a live Synchronized record / the never-synchronised placeholder record), also inside a time namespace in which CLOCK_MONOTONIC reads ~120 s (a machine that has just booted, so that the placeholder's void-after of 1000 s has not passed), with chronyd absent or a stand-in chronyd answering leap status 3: the first record published must say Unknown"
+
 # properties whose theorem files are still being proved are not claimed yet
 for _p in ():
     PROPS[_p]['claimed'] = False
@@ -521,7 +535,7 @@ for _p in ():
 # ------------------------------------------------------------------ translation tie (Rust AST regenerated by /verif/translator)
 CODE_TIE = {'C05': ['Client', 'Now'], 'C06': ['Client', 'Now'], 'C14': ['Client', 'Now', 'Errors'],
             'C01': ['Client', 'Updater', 'Extract', 'Drift', 'Poller', 'Dispatch', 'Now', 'Errors'],
-            'C07': ['Extract'], 'C10': ['Extract', 'Leap', 'Poller'], 'C08': ['Updater', 'Dispatch'], 'C09': ['Updater', 'Dispatch'], 'C19': ['Drift'],
+            'C07': ['Extract'], 'C10': ['Extract', 'Leap', 'Poller'], 'C08': ['Updater', 'Dispatch'], 'C09': ['Updater', 'Dispatch', 'Workers'], 'C19': ['Drift'],
             'C02': ['Seqlock'], 'C03': ['Seqlock'], 'C04': ['Seqlock', 'Header', 'WriterNew', 'Workers'], 'C11': ['Seqlock'], 'C18': ['Seqlock'],
             'C16': ['Header', 'WriterNew', 'Errors'], 'C17': ['Header', 'Errors'], 'C12': ['Poller', 'Now', 'Errors'], 'C13': ['Poller', 'Dispatch'],
             'C15': ['Threads', 'Workers']}
